@@ -7,7 +7,9 @@ Import ListNotations.
 Local Open Scope Z_scope.
 
 Inductive cev :=
-| GetRef (t : Z) (usable : bool)   (* getReference(FURL for tub t); usable = some hint of it yields an endpoint *)
+| GetRef (t : Z) (usable : bool)   (* getReference(FURL for tub t); usable = ConnectAll.usable: when connect() returns some hint of it
+                                      is being dialled or its handler is still waiting (ConnectAllProofs.connect_all_outcome); that the
+                                      timer then ends in exactly one Tub.connectionFailed is ConnectLateProofs.timeout_reports *)
 | Advance (dt : Z).                (* virtual time passes *)
 
 Record cst := {
